@@ -225,6 +225,21 @@ def r1(F):
         second = {l[1] for l in oh.at(hp.term(ps[1])["args"][1], ps[1]) if l[0] == "param"}
         # list concatenation: the first loop iterates the left list
         its = _ordered(hp, [b for b, t in hp.calls() if callee(t).endswith("::iter") and "slice" in callee(t)])
+        # the element lists only: a walk over the position lists says nothing about the order of the elements
+        def _elem_iter(b):
+            pl = op_place(hp.term(b)["args"][0])
+            ty = hp.local_ty(pl["l"]) if pl is not None else ""
+            return "Position" not in ty
+        if len(its) != 2:
+            its = [b for b in its if _elem_iter(b)]
+        # `a.iter().chain(b.iter())`: the order is the order of chain's arguments
+        for b, t in hp.calls():
+            if callee(t).endswith("::chain") and len(t["args"]) == 2 and len(its) == 2:
+                a0 = {l[2] for l in oh.at(t["args"][0], b) if l[0] == "call" and l[2] in its}
+                a1 = {l[2] for l in oh.at(t["args"][1], b) if l[0] == "call" and l[2] in its}
+                if len(a0) == 1 and len(a1) == 1 and a0 != a1:
+                    its = [next(iter(a0)), next(iter(a1))]
+        need(len(its) == 2, "list concatenation in VM::add does not walk two element lists (%d)" % len(its))
         lf = [{l[1] for l in oh.at(hp.term(b)["args"][0], b) if l[0] == "param"} for b in its]
         return first, second, lf, hp
 
